@@ -318,6 +318,7 @@ func runParent(p Property, scs []Sc, tier string, seed int64, n int, evidencePat
 		// the one-shot-reply reduction does not apply to this tree: explore again without the eager rules
 		fmt.Fprintf(os.Stderr, "note: restarting the exploration with the eager reductions switched off\n")
 		os.Setenv("VS_NO_EAGER", "1")
+		vs.NoEager = true // this process too (it runs the default-schedule sample and replays)
 		return runParent(p, scs, tier, seed, n, evidencePath, only)
 	}
 	if engineErr {
